@@ -195,6 +195,14 @@ def run_toy_case(case, res):
 
 
 def run_case(prop, case, res):
+    if case["kind"] == "value":  # replay of a formatter witness
+        from architecture_simulator.util.integer_representations import get_n_bit_representations
+
+        r = get_n_bit_representations(case["value"], case["n"])
+        msg = check_repr(r, case["value"], case["n"])
+        if msg:
+            res.violation("C17", "formatter", "%d-bit representation of %d = %r: %s" % (case["n"], case["value"], r, msg), case)
+        return
     with FormatterWatch(res) as fw:
         if case["kind"] == "rv":
             run_rv_case(case, res)
